@@ -176,7 +176,7 @@ def get_loader_exceptions(mode: Optional[str] = None) -> Tuple[Type[Exception], 
         if mode == "yaml":
             loader_exceptions[mode] = (__import__("yaml").YAMLError,)
         elif mode == "json":
-            loader_exceptions[mode] = (__import__("json").JSONDecodeError,)
+            loader_exceptions[mode] = (ValueError,)  # JSONDecodeError, and the plain ValueError of the integer digit limit
         elif mode == "toml":
             loader_exceptions[mode] = (import_toml_loads("get_loader_exceptions")[1],)
         elif mode == "jsonnet":
